@@ -329,6 +329,12 @@ class DictWriter:
                 "type": self.write_type(instruction.ty),
                 "inputs": json_phi_inputs,
             }
+        elif isinstance(instruction, ir.Undefined):
+            json_instruction = {
+                "kind": "undefined",
+                "name": instruction.name,
+                "type": self.write_type(instruction.ty),
+            }
         else:  # pragma: no cover
             raise NotImplementedError(str(instruction))
         return json_instruction
@@ -524,9 +530,9 @@ class DictReader:
         elif itype == "binop":
             name = json_instruction["name"]
             ty = self.get_type(json_instruction["type"])
-            a = self.get_value_ref(json_instruction["a"])
+            a = self.get_value_ref(json_instruction["a"], ty=ty)
             operation = json_instruction["operation"]
-            b = self.get_value_ref(json_instruction["b"])
+            b = self.get_value_ref(json_instruction["b"], ty=ty)
             instruction = ir.Binop(a, operation, b, name, ty)
             self.register_value(instruction)
         elif itype == "unop":
@@ -547,6 +553,11 @@ class DictReader:
             ty = self.get_type(json_instruction["type"])
             value = json_instruction["value"]
             instruction = ir.Const(value, name, ty)
+            self.register_value(instruction)
+        elif itype == "undefined":
+            name = json_instruction["name"]
+            ty = self.get_type(json_instruction["type"])
+            instruction = ir.Undefined(name, ty)
             self.register_value(instruction)
         elif itype == "literaldata":
             name = json_instruction["name"]
